@@ -238,7 +238,8 @@ pub fn scenarios(thorough: bool) -> Vec<Scenario> {
     v.push(diamond_scenario("pair-diamond", &[1, 9], if thorough { 4 } else { 3 }, &[Op::Resolve(0, 0, 0), Op::ObjPut(0, 1), Op::ObjPut(1, 2)]));
     // depth 2 in both tiers: every pair of operations from every prepared state
     v.extend(cross_scenarios_depth(2));
-    v.extend(combo_scenarios(thorough));
+    // (this probe re-builds histories under hash orders of its own: scenarios with a fixed non-default order are left out)
+    v.extend(combo_scenarios(thorough).into_iter().filter(|s| s.order.is_none()));
     v
 }
 
